@@ -121,7 +121,7 @@ EvictedOf(pre, a, post, ret) ==
     IN SelectSeq(pre.ord, LAMBDA en : en.k \notin KeysOf(post.ord) /\ en.k \notin asked
                                       /\ ~(a.op = "insert" /\ en.k = a.k))
 
-StepOf(pre, a, e) ==
+StepOf(pre, a, e, lst) ==
     LET post  == PostOf(e.st)
         fresh == FreshOf(e.st)
         after == StoredObjs(e.st)
@@ -131,8 +131,12 @@ StepOf(pre, a, e) ==
     IN [s |-> post, ret |-> e.ret, ev |-> EvictedOf(pre, a, post, e.ret),
         dropped |-> dr, handed |-> hd,
         leaked |-> before \ (after \cup dr \cup hd),
+        after |-> after,
         fresh |-> fresh, hashmax |-> e.counts.hash,
-        grew |-> (a.op \in {"insert", "try_insert"} /\ post.alive /\ post.b # pre.b),
+        \* an insertion rebuilt the table iff the table allocation is a different one
+        \* (the bucket count may stay the same when only tombstones are purged)
+        grew |-> (a.op \in {"insert", "try_insert"} /\ post.alive /\ lst.alive
+                  /\ lst.tbl # e.st.hook.tbl),
         rebuilt |-> FALSE]
 
 (* the specification's outcome that best explains the logged geometry *)
@@ -159,18 +163,37 @@ RetOwner(op, tag, tag2) ==
       [] OTHER -> {"C04"}
 
 (* <<property, facet>> pairs that fail for an ordinary (non-crash) call *)
+(* Which of the two equal keys survives a replacing insert (the stored one or  *)
+(* the passed one) is stated by no property: both objects are named alike     *)
+(* before identities are compared.                                             *)
+NormObjs(a, pre, objs) ==
+    IF a.op = "insert" /\ Present(pre, a.k)
+    THEN {IF m = AK THEN MK(a.k) ELSE m : m \in objs} ELSE objs
+
+(* The step properties presuppose a legal state before the call; an illegal    *)
+(* one was reported when it arose and says nothing about the next call.        *)
+PreOK(pre) == C01_Bound(pre) /\ pre.cur = SumRec(pre.ord) /\ C04_NoDup(pre)
+
 CallBad(pre, a, e, g, stl, lst) ==
     LET post == PostOf(e.st)
-        x    == StepOf(pre, a, e)
+        x    == StepOf(pre, a, e, lst)
         o    == Expected(pre, a, post, e.ret)
         sameKeys == KeysOf(o.s.ord) = KeysOf(post.ord)
         \* a different key set is a root cause; what depends on the content is only
         \* compared when the content agrees, so that no consequence is reported as a
         \* violation of a property that holds
+        replaced == IF a.op = "insert" /\ Present(pre, a.k) THEN {a.k} ELSE {}
         sameContent == sameKeys /\ \A i \in DOMAIN post.ord :
-                           LET en == post.ord[i] IN EntOf(o.s, en.k).kh = en.kh /\ EntOf(o.s, en.k).vs = en.vs
+                           LET en == post.ord[i] IN
+                           (en.k \in replaced \/ EntOf(o.s, en.k).kh = en.kh) /\ EntOf(o.s, en.k).vs = en.vs
         forgot == a.op \in IterKinds /\ a.fl
-    IN
+        StepFacets == {"order", "keyset", "stored_sizes", "recorded_size", "current_size", "max_size",
+                       "geometry", "alive", "ret", "dropped", "handed", "leaked", "fresh", "hashes",
+                       "C02_Step", "C03_Step", "C04_Step", "C05_Step", "C06_Step", "C10_Step",
+                       "C11_Step", "C12_Step", "C13_Step", "C13_Virgin", "shrink_raises",
+                       "shrink_raises_with_tombstones", "C15_Step", "C19_Step", "C20_Step"}
+        Guard(S) == IF PreOK(pre) THEN S ELSE {pf \in S : pf[2] \notin StepFacets}
+    IN Guard(
     \* 1. constructive operator vs. log
        {<<"C05", "order">>    : z \in {1} \cap (IF sameKeys /\ KeySeq(o.s.ord) # KeySeq(post.ord) THEN {1} ELSE {})}
     \cup {<<p, "keyset">>     : p \in IF sameKeys THEN {} ELSE
@@ -179,7 +202,7 @@ CallBad(pre, a, e, g, stl, lst) ==
                                   ELSE IF a.op \in IterKinds THEN {"C12"} ELSE {"C04"}}
     \cup {<<p, "stored_sizes">> : p \in IF sameKeys /\ \E i \in DOMAIN post.ord :
                                            LET en == post.ord[i] IN
-                                           \/ EntOf(o.s, en.k).kh # en.kh
+                                           \/ (en.k \notin replaced /\ EntOf(o.s, en.k).kh # en.kh)
                                            \/ EntOf(o.s, en.k).vs # en.vs
                                        THEN (IF a.op = "mutate" THEN {"C11"} ELSE {"C04"}) ELSE {}}
     \cup {<<p, "recorded_size">> : p \in IF sameKeys /\ \E i \in DOMAIN post.ord :
@@ -194,7 +217,7 @@ CallBad(pre, a, e, g, stl, lst) ==
     \cup {<<p, "alive">>          : p \in IF o.s.alive # post.alive THEN {"C12"} ELSE {}}
     \cup {<<p, "ret">>            : p \in IF sameKeys /\ o.ret # e.ret
                                          THEN RetOwner(a.op, o.ret.tag, e.ret.tag) ELSE {}}
-    \cup {<<p, "dropped">>        : p \in IF sameKeys /\ o.dropped # x.dropped
+    \cup {<<p, "dropped">>        : p \in IF sameKeys /\ NormObjs(a, pre, o.dropped) # NormObjs(a, pre, x.dropped)
                                          THEN {"C06"} \cup (IF a.op \in IterKinds THEN {"C12"} ELSE {})
                                               \cup (IF a.op = "retain" THEN {"C15"} ELSE {})
                                               \cup (IF forgot THEN {"C17"} ELSE {})
@@ -245,7 +268,7 @@ CallBad(pre, a, e, g, stl, lst) ==
     \cup {<<"C19", "fingerprint">> : z \in IF a.op \in ReadOps /\ e.fp # e.pre_fp THEN {1} ELSE {}}
     \cup {<<"C14", "frame">>     : z \in IF \A i \in DOMAIN e.others : e.others[i][2] THEN {} ELSE {1}}
     \cup {<<p, "anomaly">>       : p \in IF e.anom = <<>> THEN {} ELSE
-                                         {"C06"} \cup (IF forgot THEN {"C17"} ELSE {})}
+                                         {"C06"} \cup (IF forgot THEN {"C17"} ELSE {})})
 
 (* C16: what must hold after a panic inside user code *)
 CrashBad(pre, a, e, stl) ==
@@ -282,7 +305,7 @@ CrashBad(pre, a, e, stl) ==
 (* still inside, and that no object is in two places.                       *)
 ForgetBad(pre, a, e) ==
     LET post == PostOf(e.st)
-        x    == StepOf(pre, a, e)
+        x    == StepOf(pre, a, e, DeadSt)
         ys   == e.ret.seq
         yielded == ToSet(ys) \ {0}
         rest == SelectSeq(pre.ord, LAMBDA en : en.k \notin yielded)
@@ -403,7 +426,7 @@ CloneStep(e) ==
 
 CallStep(e) ==
     LET c == e.c  pre == cs[c]  a == ArgOf(e)  post == PostOf(e.st)
-        x == StepOf(pre, a, e)
+        x == StepOf(pre, a, e, last[c])
         specPanics == a.op # "clone" /\ \E o \in Apply(pre, a) : o.ret.tag = "panic"
         crashed == e.panic.kind # "none" /\ ~(e.panic.kind = "unexpected" /\ specPanics)
         forgot  == a.op \in IterKinds /\ a.fl /\ ~crashed
